@@ -176,9 +176,7 @@ func genReplayTest(prog *Prog, tr *TargetResult, r *OblResult) (src string, ok b
 		}
 		fmt.Fprintf(&sb, "\t_ = %s\n", p.name)
 	}
-	for _, g := range b.Ghosts {
-		fmt.Fprintf(&sb, "\tvar %s %s\n\t_ = %s\n", g[0], g[1], g[0])
-	}
+
 	// assignments from the model
 	var ins []*InputVar
 	ins = append(ins, tr.Inputs...)
@@ -263,12 +261,6 @@ func genReplayTest(prog *Prog, tr *TargetResult, r *OblResult) (src string, ok b
 						all += ", "
 					}
 					all += strings.Join(resNames, ", ")
-				}
-				for _, g := range b.Ghosts {
-					if all != "" {
-						all += ", "
-					}
-					all += g[0]
 				}
 				if strings.Contains(c.Go, "old(") {
 					fmt.Fprintf(&sb, "\t\tfmt.Printf(\"GOVC-REPLAY %s=skipped (uses old)\\n\")\n", c.Name)
